@@ -239,6 +239,7 @@ def fuse_bound_variants(rng):
     use1 = f"{arr[0]}(i) = {arr[1]}(i) + {rng.randint(1, 5)}"
     use2 = f"{arr[2]}(i) = {arr[2]}(i) + {rng.randint(1, 5)} * i"
     inner1 = ["do j = 1, 3", f"  {arr[0]}(i + j) = {arr[0]}(i + j) + j", "enddo"]
+    e = rng.randint(3, 6)
     return [
         ("stop-written-in-1", ("1", f"s1 + {c}", 1), [use1, f"s1 = {k}"], [use2]),
         ("start-written-in-1", ("s0", "9", 1), [f"s0 = {rng.randint(4, 6)}", use1], [use2]),
@@ -246,6 +247,21 @@ def fuse_bound_variants(rng):
         ("stop-written-in-1-nested", ("1", f"s1 + {c}", 1), inner1 + [f"s1 = {k}"], [use2]),
         ("stop-written-in-2", ("1", f"s1 + {c}", 1), [use1], [use2, f"s1 = {k}"]),
         ("stop-read-only", ("1", f"s1 + {c}", 1), [use1], [use2]),
+        # the header scalar is the FIRST access (a write) of both bodies: only the header reads
+        # stand between this pair and the write-first rule of _validate_written_scalar
+        ("stop-written-first-in-both", ("1", f"s1 + {c}", 1), [f"s1 = {k}", f"{arr[0]}(i) = s1 + i"],
+         [f"s1 = {k}", f"{arr[2]}(i) = s1 - i"]),
+        ("start-written-first-in-both", ("s0", "8", 1), [f"s0 = {e}", f"{arr[0]}(i) = s0 + i"],
+         [f"s0 = {e}", f"{arr[2]}(i) = {arr[2]}(i) + s0"]),
+        # the header reads an ARRAY element and body 1 writes that array at the loop variable
+        ("stop-array-written-in-1", ("1", f"{arr[1]}(2) + 9", 1), [f"{arr[1]}(i) = ({k}) - 3"], [use2]),
+        ("start-array-written-in-1", (f"{arr[1]}(3) + 3", "9", 1), [f"{arr[1]}(i) = {e}"], [use2]),
+        # the header scalar is written in a conditional of body 1 / is the variable of an inner loop
+        ("stop-written-in-1-cond", ("1", f"s1 + {c}", 1),
+         [use1, f"if ({arr[1]}(i) > -9) then", f"  s1 = {k}", "endif"], [use2]),
+        ("stop-is-inner-loop-var-of-1", ("1", "j - 36", 1), ["do j = 1, 2", f"  {arr[0]}(i + j) = i", "enddo"], [use2]),
+        # different loop variables (the second one is renamed by apply)
+        ("stop-written-in-1-other-var", ("1", f"s1 + {c}", 1), [use1, f"s1 = {k}"], None),
     ]
 
 
@@ -253,9 +269,73 @@ def fuse_from_variant(rng, variant):
     _, parts, b1, b2 = variant
     p = make_prog(rng, with_m=False)
     hdr = fmt_header("i", *parts)
-    body = ["  " + hdr] + ["    " + l for l in b1] + ["  enddo", "  " + hdr] + ["    " + l for l in b2] + ["  enddo"]
+    hdr2 = hdr
+    if b2 is None:      # second loop over another variable
+        hdr2 = fmt_header("k", *parts)
+        b2 = [f"c(k) = c(k) + {rng.randint(1, 5)} * k"]
+    body = ["  " + hdr] + ["    " + l for l in b1] + ["  enddo", "  " + hdr2] + ["    " + l for l in b2] + ["  enddo"]
     p.body = body
     return p
+
+
+def header_written_variants(rng):
+    """(name, kinds, body lines, with_m): single loops and 2-deep nests in which a variable of a loop
+    header (start / stop / step; scalar, array element, variable of an inner loop) is written by the
+    loop body, plus read-only controls.  Fortran evaluates a header once, on loop entry; every
+    transformation that moves, copies or re-evaluates a header (chunking and tiling copy the stop
+    expression into each chunk, interchange re-evaluates the header that moves inwards, hoisting an
+    assignment to a header variable changes the trip count, fusion drops the second evaluation) has
+    to ask whether the body writes a header variable."""
+    k = rng.randint(-2, 1)
+    c = rng.randint(5, 8)
+    e = rng.randint(3, 5)
+    w = rng.randint(1, 5)
+    single = ["chunk", "hoist", "hoistbound", "replaceiv"]
+    nest = ["swap", "tile2d", "chunk", "hoistbound"]
+    upd = f"a(i) = a(i) + {w} * i"
+    updm = f"m(i, j) = m(i, j) + {w} * i + j"
+    out = [
+        ("stop-written", single, [f"do i = 1, s1 + {c}", "  " + upd, f"  s1 = {k}", "enddo"], False),
+        ("stop-written-first", single, [f"do i = 1, s1 + {c}", f"  s1 = {k}", "  " + upd, "enddo"], False),
+        ("start-written", single, ["do i = s0, 9", "  " + upd, f"  s0 = {e}", "enddo"], False),
+        ("start-stop-written", single, [f"do i = t - t + 1, t + {c}", "  " + upd, f"  t = i + ({k})", "enddo"], False),
+        ("stop-array-written", single, [f"do i = 1, b(2) + 9", f"  b(i) = ({k}) - 3", "  " + upd, "enddo"], False),
+        ("stop-written-cond", single, [f"do i = 1, s1 + {c}", "  " + upd, "  if (b(i) > -9) then", f"    s1 = {k}",
+                                       "  endif", "enddo"], False),
+        ("stop-written-in-inner-loop", single, [f"do i = 1, s1 + {c}", "  do j = 1, 2", f"    s1 = j - {w}", "  enddo",
+                                                "  " + upd, "enddo"], False),
+        ("stop-is-inner-loop-var", single, ["do i = 1, j - 36", "  do j = 1, 2", "    c(i + j) = i", "  enddo", "enddo"],
+         False),
+        ("stop-read-only", single, [f"do i = 1, s1 + {c}", "  " + upd, "  t = s1", "enddo"], False),
+        ("step2-stop-written", single, [f"do i = 1, s1 + {c}, 2", "  " + upd, f"  s1 = {k}", "enddo"], False),
+        ("neg-step-stop-written", single, [f"do i = 9, s1 - {c}, -1", "  " + upd, "  s1 = 9", "enddo"], False),
+        # nests: the written header variable belongs to the outer or to the inner loop
+        ("outer-stop-written", nest, [f"do j = 1, s1 + {e}", "  do i = 1, 5", "    " + updm, f"    s1 = {k}",
+                                      "  enddo", "enddo"], True),
+        ("outer-start-written", nest, ["do j = s0, 6", "  do i = 1, 4", "    " + updm, f"    s0 = {e}",
+                                       "  enddo", "enddo"], True),
+        ("inner-stop-written", nest, ["do j = 1, 4", f"  do i = 1, s1 + {e}", "    " + updm, f"    s1 = {k + 2}",
+                                      "  enddo", "enddo"], True),
+        ("inner-start-written", nest, ["do j = 1, 4", "  do i = s0, 7", "    " + updm, f"    s0 = {e}",
+                                       "  enddo", "enddo"], True),
+        ("inner-stop-array-written", nest, ["do j = 1, 3", "  do i = 1, b(2) + 8", "    " + updm, f"    b(i) = {k}",
+                                            "  enddo", "enddo"], True),
+        ("outer-stop-array-written", nest, ["do j = 1, b(2) + 6", "  do i = 1, 4", "    " + updm, f"    b(i) = {k}",
+                                            "  enddo", "enddo"], True),
+        ("nest-read-only", nest, [f"do j = 1, s1 + {e}", "  do i = s0 - s0 + 1, 5", "    " + updm, "    t = s0 + s1",
+                                  "  enddo", "enddo"], True),
+    ]
+    return out
+
+
+def gen_header_written_systematic(rng):
+    """one (program, kinds) per variant of `header_written_variants` (run on every check)"""
+    res = []
+    for _, kinds, lines, with_m in header_written_variants(rng):
+        p = make_prog(rng, with_m=with_m)
+        p.body = ["  " + l for l in lines]
+        res.append((p, kinds))
+    return res
 
 
 def gen_fuse_systematic(rng):
